@@ -16,7 +16,8 @@ Vars == {"a", "b"}
 StrC == "\"( ) / : ~ # \\\" x\""
 Concepts == IF Small THEN {"x", NULL, StrC} ELSE {"x", NULL, StrC, "a", "x~1"}
 RoleTexts == IF Small THEN {":r", ":", ":r-of~1"} ELSE {":r", ":", ":r-of~1", ":op1~e.2,3"}
-AtomTexts == IF Small THEN {"x", StrC, "\"~\"~1", NULL, "a"} ELSE {"x", StrC, "x~e.2,3", "\"~\"~1", NULL, "a", "0"}
+StrB == "\"y\\\\\""                \* a string ending in an escaped backslash: the quote after it closes the string
+AtomTexts == IF Small THEN {"x", StrC, StrB, "\"~\"~1", NULL, "a"} ELSE {"x", StrC, StrB, "x~e.2,3", "\"~\"~1", NULL, "a", "0"}
 Metas == IF Small THEN {<<>>, <<<<"k", "">>>>, <<<<"snt", "The dog; (barked) \"loudly\" # now">>, <<"id", "x y">>>>}
          ELSE {<<>>, <<<<"id", "1">>>>, <<<<"k", "">>>>, <<<<"snt", "The dog; (barked) \"loudly\" # now">>, <<"id", "x y">>>>}
 Indents == {NONE, 0 - 1, 0, 1, 3}
